@@ -501,8 +501,9 @@ POOL = {
     'unicode': ['\u20ac<b>', '\u4e2d\u6587"\'>', '\U0001f600<x>', '\u202e<gnp.', '\u0100&\u017f', '\u2028\u2029<s>'],
     # control characters, line breaks, non-characters
     'ctrl': ['\x00<', '\x01\x0b\x1f&', '\r\nX-Injected: 1', '\n\n<html>', '\ufffe\uffff>', '\x7f\x08"', '\x0c<x>'],
-    # what a server can deliver in a header field: visible ASCII
-    'hdr_hostile': ['<b>&"\'>', '"><inj a="1', '\'><inj a=\'1', ']]><x y="1">', '--><!-- x', '<script>alert(1)</script>',
+    # what a server can deliver in a header field: visible ASCII - and the control characters that some servers pass through
+    # in a field value (nginx: all but NUL, CR, LF)
+    'hdr_hostile': ['\x01<a>\x1f', 'x\x0b&\x0cy', '\x7f"\x08<', '<b>&"\'>', '"><inj a="1', '\'><inj a=\'1', ']]><x y="1">', '--><!-- x', '<script>alert(1)</script>',
                     '&lt;&#60;&amp;amp;', '{{7*7}}${x}%(y)s', ' onx="1" ', '<' * 40, 'a' * 3000 + '<z>', '%00%3c%0d%0a',
                     '</ServiceException><x/>', '"/><Layer><Name>x</Name></Layer><a b="'],
     # ... and bytes above 0x7f
